@@ -31,7 +31,11 @@ def gen_cases(rng, tier, rnd):
             if len(set(vals)) < 3:
                 continue
             m = dict(zip('abc', vals))
-            cases.append({'kind': 'rx', 'tree': genrx.rename_tree(t, m), 'abs': hx(t)})
+            case = {'kind': 'rx', 'tree': genrx.rename_tree(t, m), 'abs': hx(t)}
+            if rng.random() < 0.3:
+                # history: other expressions are converted earlier in the same interpreter and their results are kept
+                case['also'] = [genrx.rename_tree(genrx.tree(rng, rng.randint(0, 5), list('abc'[:rng.randint(1, 3)])), m) for _ in range(rng.randint(1, 2))]
+            cases.append(case)
         else:
             r = rng.random()
             if r < 0.25:
@@ -67,6 +71,42 @@ def gen_cases(rng, tier, rnd):
 def run_case(case, env):
     out = {'viol': [], 'evals': 1, 'ticks': 0, 'probes': {}, 'hist': {}}
     dig = None
+    if case['kind'] == 'rx' and case.get('also'):
+        # mini-session: every earlier result must still be a valid NFA for its own expression after later conversions
+        kept = []
+        out['probes']['kind_regexp'] = 1
+        out['probes']['earlier_conversions_in_same_interpreter'] = 1
+        out['evals'] = 0
+        for t in case['also'] + [case['tree']]:
+            R = build({'kind': 'regexp', 'tree': t})
+            st, val, ticks = call(env, ra.regexp_to_nfa, R)
+            out['ticks'] += ticks
+            out['evals'] += 1
+            if st == 'ok':
+                kept.append((t, val))
+            elif st == 'timeout':
+                out['viol'].append(viol('no-result-within-budget', 'regexp_to_nfa', val))
+            else:
+                out['viol'].append(viol('exception', 'regexp_to_nfa', val))
+            for (t0, N0) in kept:
+                try:
+                    ns = snapshot(N0)
+                    problems = fa.validate_nfa(ns)
+                except Exception as e:
+                    problems = ['unsnapshotable: %s' % e]
+                if problems:
+                    out['viol'].append(viol('invalid-result', 'regexp_to_nfa', {'regexp': t0, 'problems': problems[:3], 'after_converting': t}, tags=['earlier-result']))
+                    continue
+                sig = sorted(rrx.symbols(t0) | set(ns['Sigma']))
+                if rrx.canon_of_regexp(t0, sigma=sig) != fa.canon_of(ns, sigma=sig):
+                    out['viol'].append(viol('language-differs', 'regexp_to_nfa', {'regexp': t0, 'after_converting': t}, tags=['earlier-result'] if t0 is not t else []))
+        c_main = rrx.canon_of_regexp(case['tree'])
+        if not fa.canon_is_empty(c_main) and not fa.canon_is_universal(c_main):
+            out['nontrivial_keys'] = [case['abs']]
+            out['probes']['nontrivial'] = 1
+        out['scheds'] = [hx([case['abs'], len(kept)])]
+        out['digest'] = hx([len(kept), [len(N.Q) for _, N in kept]])
+        return out
     if case['kind'] == 'rx':
         tree = case['tree']
         R = build({'kind': 'regexp', 'tree': tree})
@@ -196,6 +236,11 @@ def _shrink_tree(t):
 
 def shrink(case):
     if case['kind'] == 'rx':
+        if case.get('also'):
+            for i in range(len(case['also'])):
+                c = copy.deepcopy(case)
+                del c['also'][i]
+                yield c
         for t in _shrink_tree(case['tree']):
             c = copy.deepcopy(case)
             c['tree'] = t
